@@ -1166,12 +1166,21 @@ fn visit_expression(expression: &Expression, out: &mut Vec<Anchor>) {
 /// trailing blank lines, and exactly one final newline. (Blank-line trivia and hard-line joins can
 /// otherwise stack up.)
 fn collapse_blanks(text: &str) -> String {
+    // Only a blank line between tokens is layout: one inside a `"""` string is part of its value and
+    // must stay. The scanner tells them apart (in printed text, every bare `{` of a string is a hole).
+    let layout: std::collections::HashSet<usize> = scan_trivia(text, &[])
+        .iter()
+        .filter_map(|item| match item {
+            Scanned::Blank(offset) => Some(*offset),
+            Scanned::Comment { .. } => None,
+        })
+        .collect();
     let mut lines: Vec<&str> = Vec::new();
     let mut prev_blank = true; // seeded true so leading blank lines are dropped
+    let mut offset = 0;
     for line in text.lines() {
-        // The printer has already stripped trailing spaces and tabs, so a blank line is empty: a
-        // line of other white space is text of a multi-line string, which must be kept.
-        let blank = line.trim_matches([' ', '\t']).is_empty();
+        let blank = layout.contains(&offset);
+        offset += line.len() + 1;
         if blank && prev_blank {
             continue;
         }
